@@ -1,6 +1,224 @@
-(* C03 — the workspace equals a simple model after any history of API operations. *)
-From SV Require Import Base Json MD5 Canon FS Ws WsLemmas WsInit CorrC02 CorrC03 C03Proofs.
+(* C03 — the workspace equals a simple model after any history of API operations.
+   This file only states theorems; proofs live in SV.C03Proofs (and SV.C02Proofs / SV.C04Proofs / SV.FS).
 
-Theorem C03_placeholder_spec_initial : ss_projs ss0 = [].
-Proof. reflexivity. Qed.
-Print Assumptions C03_placeholder_spec_initial.
+   Two levels.  SIMPLE MODEL: one workspace is a finite map  id |-> sub-tree of the job  (SV.C03Proofs.amap), the
+   operations are the one-line updates [astep] (create / re-key / remove / nothing).  CONCRETE: the file-system
+   programs of SV.Ws.  [absj] reads the map off the tree, defined exactly on the names that count as jobs.
+
+   FULL STATEMENT WANTED (refine_step / refine_run over the PUBLIC operations through arbitrary handles):
+     Inv c -> abs c = a -> forall op, Inv (cstep c op) /\ abs (cstep c op) = sstep a op /\ out_c = out_s,
+     with Inv = every listed name is the hash of its parsed state point file, no '~' / '._*' file anywhere,
+     len = |iter| = membership, cache soundness, handle coherence; lifted to all finite op lists.
+   This is FALSE of the code as it is (and of the faithful model): see the five ..._refuted theorems below, all of
+   which concern the handle layer (which store operation a public call through a given handle performs).
+   PROVED (named _partial where they replace the full statement):
+   * the store-level refinement: every life-cycle program, under the pre-conditions of its C02 / C04 theorem, acts
+     on the abstraction as the simple model's update (the C03_..._refines_... theorems), any step meeting its get-level
+     post-condition refines (C03_refine_step_partial), and the lift to all finite sequences by induction
+     (C03_refine_run_partial);
+   * the listing clauses in full: only exactly id-named entries count, len = |iteration| = membership,
+     one view row per listed name; no backup / temp file after a re-key.
+   NOT COVERED by the proofs (covered by the correspondence): move / clone at the abstraction level (their
+   get-level theorems are C04_move_ok / C04_clone_ok), clear / reset, document and file writes, update_cache,
+   and the derivation of the step pre-conditions from an invariant on handles and cells. *)
+From SV Require Import Base Json MD5 Canon FS Ws WsLemmas WsInit CorrC02 CorrC03 C02Proofs C04Proofs C03Proofs.
+
+(* ---- only exactly id-named directories count as jobs (full; the code was repaired: fix 5a38a4a) *)
+Theorem C03_only_exact_id_names_listed : forall f wsd i,
+  In i (job_dirs f wsd) <-> (get f wsd = Some Dir /\ get f (wsd ++ [i]) <> None /\ is_id i = true).
+Proof. exact job_dirs_listed. Qed.
+Print Assumptions C03_only_exact_id_names_listed.
+
+Theorem C03_listing_has_no_duplicates : forall f wsd, NoDup (job_dirs f wsd).
+Proof. exact job_dirs_NoDup. Qed.
+Print Assumptions C03_listing_has_no_duplicates.
+
+(* ---- len / iteration / membership agree, and the fresh view has one row per listed name *)
+Theorem C03_len_is_iteration_length : forall frepr w q s,
+  snd (step frepr w q (OLen s)) =
+  VNum (N.of_nat (length (match snd (step frepr w q (OIds s)) with VStrs l => l | _ => [] end))).
+Proof. exact len_is_length_of_ids. Qed.
+Print Assumptions C03_len_is_iteration_length.
+
+Theorem C03_membership_iff_listed : forall f wsd i, is_id i = true -> get f wsd = Some Dir ->
+  (exists_ f (wsd ++ [i]) = true <-> In i (job_dirs f wsd)).
+Proof. exact contains_iff_listed. Qed.
+Print Assumptions C03_membership_iff_listed.
+
+Theorem C03_view_rows_are_the_listing : forall frepr f r, map v_id (view frepr f r) = job_dirs f (r ++ [WS]).
+Proof. exact view_ids. Qed.
+Print Assumptions C03_view_rows_are_the_listing.
+
+(* ---- refinement, store level *)
+Theorem C03_refine_step_partial : forall wsd f o f', cstep_ok wsd f o f' ->
+  forall k r, absj f' wsd k r = astep (absj f wsd) o k r.
+Proof. exact refine_step. Qed.
+Print Assumptions C03_refine_step_partial.
+
+Theorem C03_refine_run_partial : forall wsd ops f f', crun_ok wsd f ops f' ->
+  forall k r, absj f' wsd k r = fold_left astep ops (absj f wsd) k r.
+Proof. exact refine_run. Qed.
+Print Assumptions C03_refine_run_partial.
+
+(* the concrete programs meet the step conditions *)
+Theorem C03_init_refines_create : forall frepr w h sp,
+  (h < length (w_hs w))%nat ->
+  h_cell (getH w h) = None -> h_cached (getH w h) = Some sp -> h_id (getH w h) = calc_id frepr sp ->
+  let wsd := wsp (getS w (h_s (getH w h))) in
+  (forall k, (k <= length wsd)%nat -> get (w_fs w) (firstn k wsd) = Some Dir) ->
+  (forall q, under (wsd ++ [h_id (getH w h)]) q = true -> get (w_fs w) q = None) ->
+  exists w', init frepr false false w h = (w', inl tt) /\
+    cstep_ok wsd (w_fs w) (ACreate (h_id (getH w h)) (sp_content frepr sp)) (w_fs w').
+Proof. exact init_refines_create. Qed.
+Print Assumptions C03_init_refines_create.
+
+Theorem C03_init_of_valid_job_refines_nop : forall frepr susp force w h wsd,
+  (let '(w1, r) := sp_access frepr w h in
+   exists ci v, r = inl ci /\ load_file frepr w1 (getH w1 h) = inl v) ->
+  cstep_ok wsd (w_fs w) ANop (w_fs (fst (init frepr susp force w h))).
+Proof. exact init_refines_nop. Qed.
+Print Assumptions C03_init_of_valid_job_refines_nop.
+
+Theorem C03_readonly_refines_nop : forall frepr w q o wsd,
+  readonly o = true -> cstep_ok wsd (w_fs w) ANop (w_fs (fst (fst (step frepr w q o)))).
+Proof. exact readonly_refines_nop. Qed.
+Print Assumptions C03_readonly_refines_nop.
+
+Theorem C03_rekey_refines_rekey : forall frepr w ci cf,
+  let c := getC w ci in
+  let js := c_jobs c in
+  let h0 := getH w (hd 0%nat js) in
+  let old := h_id h0 in
+  let new := calc_id frepr (c_data c) in
+  let wsd := wsp (getS w (h_s h0)) in
+  let src := wsd ++ [old] in
+  let dst := wsd ++ [new] in
+  old <> new -> is_id old = true ->
+  js <> [] ->
+  (forall j, In j js -> (j < length (w_hs w))%nat /\ h_cell (getH w j) = Some ci /\ h_s (getH w j) = h_s h0) ->
+  getCF w ci = src ++ [SPF] ->
+  get (w_fs w) (src ++ [SPF]) = Some (File cf) ->
+  get (w_fs w) (src ++ [SPT]) = None -> get (w_fs w) (src ++ [TMPPFX ++ SPF]) = None ->
+  get (w_fs w) src = Some Dir -> get (w_fs w) wsd = Some Dir ->
+  (get (w_fs w) dst = None \/ get (w_fs w) dst = Some Dir) -> has_children (w_fs w) dst = false ->
+  exists w', sp_save frepr false w ci = (w', inl tt) /\
+    cstep_ok wsd (w_fs w) (ARekey old new (sp_content frepr (c_data c))) (w_fs w').
+Proof. exact sp_save_refines_rekey. Qed.
+Print Assumptions C03_rekey_refines_rekey.
+
+Theorem C03_rekey_conflict_refines_nop : forall frepr w ci cf,
+  let c := getC w ci in
+  let h0 := getH w (hd 0%nat (c_jobs c)) in
+  let old := h_id h0 in
+  let new := calc_id frepr (c_data c) in
+  let wsd := wsp (getS w (h_s h0)) in
+  old <> new ->
+  getCF w ci = wsd ++ [old; SPF] ->
+  get (w_fs w) (wsd ++ [old; SPF]) = Some (File cf) ->
+  get (w_fs w) (wsd ++ [old; SPT]) = None ->
+  get (w_fs w) (wsd ++ [old]) = Some Dir -> get (w_fs w) wsd = Some Dir ->
+  get (w_fs w) (wsd ++ [new]) = Some Dir -> has_children (w_fs w) (wsd ++ [new]) = true ->
+  exists w', sp_save frepr false w ci = (w', inr (FExn EDestinationExists)) /\
+    cstep_ok wsd (w_fs w) ANop (w_fs w').
+Proof. exact sp_save_conflict_refines_nop. Qed.
+Print Assumptions C03_rekey_conflict_refines_nop.
+
+Theorem C03_remove_refines_remove : forall frepr w h,
+  let jd := jobdir w (getH w h) in
+  get (w_fs w) jd = Some Dir -> jd <> [] -> getHD w h = None ->
+  exists w', remove_job frepr w h = (w', inl tt) /\
+    cstep_ok (wsp (getS w (h_s (getH w h)))) (w_fs w) (ARemove (h_id (getH w h))) (w_fs w').
+Proof. exact remove_refines_remove. Qed.
+Print Assumptions C03_remove_refines_remove.
+
+(* ---- no temporary or backup file is left behind by a re-key *)
+Theorem C03_rekey_leaves_no_temp : forall frepr w ci cf,
+  let c := getC w ci in
+  let js := c_jobs c in
+  let h0 := getH w (hd 0%nat js) in
+  let old := h_id h0 in
+  let new := calc_id frepr (c_data c) in
+  let wsd := wsp (getS w (h_s h0)) in
+  let src := wsd ++ [old] in
+  let dst := wsd ++ [new] in
+  old <> new -> js <> [] ->
+  (forall j, In j js -> (j < length (w_hs w))%nat /\ h_cell (getH w j) = Some ci /\ h_s (getH w j) = h_s h0) ->
+  getCF w ci = src ++ [SPF] ->
+  get (w_fs w) (src ++ [SPF]) = Some (File cf) ->
+  get (w_fs w) (src ++ [SPT]) = None -> get (w_fs w) (src ++ [TMPPFX ++ SPF]) = None ->
+  get (w_fs w) src = Some Dir -> get (w_fs w) wsd = Some Dir ->
+  (get (w_fs w) dst = None \/ get (w_fs w) dst = Some Dir) -> has_children (w_fs w) dst = false ->
+  exists w', sp_save frepr false w ci = (w', inl tt) /\
+    get (w_fs w') (dst ++ [SPT]) = None /\ get (w_fs w') (dst ++ [TMPPFX ++ SPF]) = None /\
+    (forall r, get (w_fs w') (src ++ r) = None).
+Proof. exact rekey_leaves_no_temp. Qed.
+Print Assumptions C03_rekey_leaves_no_temp.
+
+(* ---- where the PUBLIC operations do not act as the simple model: concrete witnesses in the faithful model,
+   each replayed on the real signac in every run (harness/c03.py SCRIPTS; known_findings.d/C03.json tags 2-5, 7) *)
+Theorem C03_refine_step_failed_rekey_refuted :
+  run wfr w0 0 [ONewSession wA; OOpenSp 0 xa0; OInit 0 false; OOpenSp 0 xa1; OInit 1 false;
+                OEdit 0 [] (ESetKey kA (JInt 1)); OEdit 0 [] (ESetKey xB (JInt 0)); OIds 0]
+  = [VUnit; VStr (xid xa0); VUnit; VStr (xid xa1); VUnit; VExn EDestinationExists; VUnit;
+     VStrs [xid xa1; xid xa1b0]].
+Proof. exact dirty_witness. Qed.
+Print Assumptions C03_refine_step_failed_rekey_refuted.
+
+Theorem C03_refine_step_second_handle_refuted :
+  run wfr w0 0 [ONewSession wA; OOpenSp 0 xa0; OInit 0 false; OOpenSp 0 xa0; OSp 1;
+                OEdit 0 [] (ESetKey kA (JInt 1)); OEdit 1 [] (ESetKey xB (JInt 0))]
+  = [VUnit; VStr (xid xa0); VUnit; VStr (xid xa0); VJson xa0; VUnit; VExn EKeyError].
+Proof. exact lock_witness. Qed.
+Print Assumptions C03_refine_step_second_handle_refuted.
+
+Theorem C03_refine_step_lazy_handle_refuted :
+  run wfr w0 0 [ONewSession wA; OOpenSp 0 xa0; OInit 0 false; ONewSession wA; OOpenId 1 (xid xa0); ORemove 0;
+                OInit 1 false; OCheck 0; OIds 0]
+  = [VUnit; VStr (xid xa0); VUnit; VUnit; VStr (xid xa0); VUnit; VExn EJobsCorrupted; VExn EJobsCorrupted;
+     VStrs [xid xa0]].
+Proof. exact lazy_witness. Qed.
+Print Assumptions C03_refine_step_lazy_handle_refuted.
+
+Theorem C03_refine_step_stale_document_refuted :
+  run wfr w0 0 [ONewSession wA; OOpenSp 0 xa0; OInit 0 false; ODocSet 0 kA (JInt 1); OOpenSp 0 xa0; ODoc 1;
+                ORemove 0; OInit 0 false; ODocSet 1 xB (JInt 2); ODoc 0]
+  = [VUnit; VStr (xid xa0); VUnit; VUnit; VStr (xid xa0); VJson (JObj [(kA, JInt 1)]); VUnit; VUnit; VUnit;
+     VJson (JObj [(kA, JInt 1); (xB, JInt 2)])].
+Proof. exact stale_doc_witness. Qed.
+Print Assumptions C03_refine_step_stale_document_refuted.
+
+Theorem C03_refine_step_moved_handle_copy_refuted :
+  run wfr w0 0 [ONewSession wA; ONewSession xwB; OOpenSp 0 xa0; OInit 0 false; OSp 0; OCopy 0; OMove 0 1;
+                OEdit 1 [] (ESetKey kA (JInt 2)); OIdPath 0; OIds 1; OIds 0]
+  = [VUnit; VUnit; VStr (xid xa0); VUnit; VJson xa0; VStr (xid xa0); VUnit; VUnit;
+     VIdPath (xid xa2) (xwB ++ [WS; xid xa2]); VStrs [xid xa0]; VStrs []].
+Proof. exact moved_copy_witness. Qed.
+Print Assumptions C03_refine_step_moved_handle_copy_refuted.
+
+(* ---- licence for the correspondence step (partial): on the listing clauses the oracle reads the same
+   function of the tree as the model ([tree_ids] of CorrC02 on exact ids vs [job_dirs]); the store-level
+   refinement above is what "agrees with the model => equals the simple model" rests on for the covered steps.
+   MISSING: the lift of [absj] to the (sp, doc, files) rows of the oracle's [spec_view]. *)
+Theorem C03_model_holds_partial : forall frepr f r,
+  map v_id (view frepr f r) = job_dirs f (r ++ [WS]) /\
+  (forall i, In i (job_dirs f (r ++ [WS])) -> is_id i = true) /\ NoDup (job_dirs f (r ++ [WS])).
+Proof.
+  intros frepr f r. split; [apply view_ids|]. split; [|apply job_dirs_NoDup].
+  intros i H. apply job_dirs_listed in H. destruct H as [_ [_ H]]. exact H.
+Qed.
+Print Assumptions C03_model_holds_partial.
+
+(* ---- non-vacuity: a reachable run satisfies crun_ok (create, then re-key, then remove), and the abstraction
+   computes what the simple model says *)
+Example C03_example_run :
+  let w1 := exec wfr w0 0 [ONewSession wA; OOpenSp 0 xa0] in
+  let w2 := exec wfr w1 0 [OInit 0 false] in
+  let w3 := exec wfr w2 0 [OEdit 0 [] (ESetKey kA (JInt 1))] in
+  let w4 := exec wfr w3 0 [ORemove 0] in
+  let wsd := wA ++ [WS] in
+  absj (w_fs w1) wsd (xid xa0) [] = None /\
+  absj (w_fs w2) wsd (xid xa0) [SPF] = Some (File (sp_content wfr xa0)) /\
+  absj (w_fs w3) wsd (xid xa0) [] = None /\ absj (w_fs w3) wsd (xid xa1) [SPF] = Some (File (sp_content wfr xa1)) /\
+  absj (w_fs w3) wsd (xid xa1) [SPT] = None /\
+  absj (w_fs w4) wsd (xid xa1) [] = None.
+Proof. vm_compute. repeat split; reflexivity. Qed.
